@@ -20,6 +20,7 @@ package evaluator
 //                          answered version v (0 = nil); the answer carries t as the client id of every partition
 //   Q i t ci gi showall    request i handed to the evaluator
 //   W t ms                 the storage responder stops taking requests for ms (WR: answers the next one ms late)
+//   X t n                  the cache lifetime (seconds) the module read from its configuration
 //   R i t chex ghex n tok*n   a reply for request i arrived (names of the reply, then the group status)
 // then  RC n c_0 .. c_{n-1}  (replies seen per request, counted after a grace period)
 // and   ALIAS a             (1 = some reply object handed out earlier differs from the snapshot taken on receipt).
@@ -321,13 +322,15 @@ func vcRun(sc *vcScen, module *CachingEvaluator) (res string) {
 					burstK = -1
 				}
 				mu.Unlock()
-				if answerDelay > 0 {
-					time.Sleep(time.Duration(answerDelay) * time.Millisecond)
-					answerDelay = 0
-				}
+				delay := answerDelay
+				answerDelay = 0
 				// answered from a goroutine of its own: an evaluator that has stopped listening for the answer must
 				// not be able to wedge the storage side (and with it the rest of the scenario)
 				go func() {
+					if delay > 0 {
+						// a slow answer does not hold up the fetches that come after it
+						time.Sleep(time.Duration(delay) * time.Millisecond)
+					}
 					if v > 0 {
 						r.Reply <- answer
 					}
@@ -340,6 +343,9 @@ func vcRun(sc *vcScen, module *CachingEvaluator) (res string) {
 	}()
 
 	module.Start()
+	mu.Lock()
+	events = append(events, fmt.Sprintf("X %d %d", stamp(), module.expireCache)) // the lifetime Configure read
+	mu.Unlock()
 
 	var reqs []*protocol.EvaluatorRequest
 	replyCap, readDelay := 4, 0
@@ -513,7 +519,9 @@ func TestVerifProbeCache(t *testing.T) {
 	for n, s := range scens {
 		root := "evaluator.m" + strconv.Itoa(n)
 		viper.Set(root+".class-name", "caching")
-		viper.Set(root+".expire-cache", s.lsec)
+		if s.lsec >= 0 {
+			viper.Set(root+".expire-cache", s.lsec)
+		} // lsec < 0: expire-cache is left unset, Configure's SetDefault applies
 		m := &CachingEvaluator{Log: zap.NewNop()}
 		m.App = &protocol.ApplicationContext{Logger: zap.NewNop(), StorageChannel: make(chan *protocol.StorageRequest)}
 		m.Configure("m"+strconv.Itoa(n), root)
